@@ -89,11 +89,11 @@ def gen(ctx):
 # ---------------------------------------------------------------------------
 def rnd_history(rnd, nops, zst):
     root = rnd.choice(["heap", "heap", "heap", "region"])
-    n = rnd.choice([0, 1, 2, 3, 5, 8, 9, 15, 16, 17, 24, 31, 32, 33, 64, 100])
+    n = rnd.choice([0, 1, 2, 3, 5, 8, 9, 15, 16, 17, 24, 31, 32, 33, 64, 100, 130, 200])
     if root == "region" and n == 0:
         n = 1
     b = rnd.randint(0, 15) if root == "heap" else 0
-    p = rnd.choice([1, 1, 2, 3, 7, 8, 16, 64, n + 1, 4096])
+    p = rnd.choice([1, 1, 2, 3, 7, 8, 16, 64, n + 1, 4096]) if n < 100 else rnd.choice([1, 1, 1, 2, 3])
     prog = [{"op": "init", "a": {"root": root, "n": n, "b": b, "p": p}}]
 
     def pos():
@@ -119,6 +119,9 @@ def rnd_history(rnd, nops, zst):
         return o, (1 << 64) - o + rnd.choice([0, 0, 1, 2, 3, -1, o - 1]) % o      # count < 2^64, o + count = 2^64 + (0 .. o-1)
 
     def blen():
+        if n >= 100 and rnd.random() < 0.3:
+            # with one-byte pages a bitmap word is 64 pages: ranges ending just before / at / after a word boundary
+            return rnd.choice([62, 63, 64, 65, 126, 127, 128, 129])
         return rnd.choice([0, 0, 1, 2, 3, 4, 7, 8, 9, 10, 15, 16, 17, 33, {"len": 0}, {"len": 1}, {"len": -1}, {"len": 3}])
 
     def esz():
@@ -180,7 +183,7 @@ def rnd_history(rnd, nops, zst):
             op = rnd.choice(["write", "write", "read", "write_slice", "read_slice", "write_obj", "read_obj", "store", "load",
                              "copy_to", "copy_from", "copy_to_volatile_slice", "read_volatile_from",
                              "read_exact_volatile_from", "write_volatile_to", "write_all_volatile_to", "read_from_bad_fd",
-                             "write_to_cursor", "write_all_to_cursor", "write_to_bad_fd",
+                             "write_to_cursor", "write_all_to_cursor", "write_to_bad_fd", "read_cursor", "read_exact_cursor",
                              "ref_store", "ref_load", "arr_load", "arr_store", "arr_copy_to", "arr_copy_from",
                              "arr_copy_to_volatile_slice", "bitmap_reset"])
             if op in ("write", "write_slice"):
@@ -209,6 +212,9 @@ def rnd_history(rnd, nops, zst):
                 a = {"addr": pos(), "count": cnt()}
                 if rnd.random() < 0.06:
                     a["addr"], a["count"] = wrap_pair()
+            elif op in ("read_cursor", "read_exact_cursor"):
+                a = {"addr": pos(), "src": buf(rnd.choice([0, 1, 2, 5, 8, 9, 17, 40])), "count": cnt(),
+                     "pos": rnd.choice([0, 0, 1, 2, 5, 8, 9, 17, 18, 40, 41, rnd.choice(BIG)])}
             elif op in ("write_to_cursor", "write_all_to_cursor"):
                 a = {"addr": pos(), "count": cnt(), "room": rnd.choice([0, 0, 1, 2, 3, 7, 8, 9, 16, 40])}
             elif op == "ref_store":
@@ -232,6 +238,20 @@ def traces(ctx, zst=None, release=False):
         zst = ctx.pid in ("C18", "C07")
     nhist, nops = (150, 60) if ctx.tier == "quick" else (2500, 80)
     prog = []
+    # a deterministic sweep across the 64-page word boundaries of the dirty bitmap (one-byte pages): every start / length
+    # pair around them, through three write paths, on heap slices and mapped regions
+    for root in ("heap", "region"):
+        for start in (0, 1, 62, 63, 64, 65, 127, 128):
+            for ln in (1, 2, 62, 63, 64, 65, 66, 127, 128, 129):
+                if start + ln <= 260:
+                    prog.append({"op": "init", "a": {"root": root, "n": 260, "b": 0, "p": 1}})
+                    prog.append({"op": "write", "a": {"addr": start, "buf": {"blen": ln, "seed": 7}}})
+                    prog.append({"op": "bitmap_reset", "a": {}})
+                    prog.append({"op": "read_volatile_from", "a": {"addr": start, "src": {"blen": ln, "seed": 9}, "count": ln}})
+                    prog.append({"op": "bitmap_reset", "a": {}})
+                    prog.append({"op": "subslice", "a": {"o": start, "c": ln}})
+                    prog.append({"op": "write_obj", "a": {"addr": 0, "buf": {"blen": 1, "seed": 3}}})
+                    prog.append({"op": "copy_from", "a": {"esz": 1, "buf": {"blen": ln, "seed": 11}}})
     for _ in range(nhist):
         prog += rnd_history(ctx.rnd, nops, zst)
     events = run_harness("volatile", prog, os.path.join(WORK, "tr_volatile_%s.ev.ndjson" % ctx.pid), ctx=ctx, release=release)
